@@ -29,14 +29,14 @@ def miri(ctx, prop, mode, features, count, shards, faults="none", gen="random", 
     for i in range(shards):
         # pass-through allocator (Miri judges the frees itself); no state hashing (slow under Miri)
         args = ["--mode", mode, "--gen", gen, "--seed", str(seed), "--count", str(count), "--shard", str(i), "--nshards", str(shards),
-                "--props", prop, "--alloc", "track", "--faults", faults, "--no-state-hash"] + list(extra)
+                "--props", prop, "--alloc", "track", "--faults", faults, "--no-state-hash", "--min-ops", "8", "--max-ops", "28"] + list(extra)
         name = "miri-%s-%s-%s-%d" % (mode, gen, features.replace(",", "+") or "none", i)
         steps.append(ctx.step(name, "harness", "ccmon", args, features=features, tool="miri", timeout=timeout, crash_property=prop,
                               miri_flags=("-Zmiri-ignore-leaks " + flags).strip()))
     return steps
 
 
-def standard_plan(ctx, prop, mode=None, faults="none", quick_n=40000, thorough_n=600000, miri_quick=(24, 8), miri_thorough=(256, 32),
+def standard_plan(ctx, prop, mode=None, faults="none", quick_n=40000, thorough_n=600000, miri_quick=(36, 12), miri_thorough=(640, 32),
                   need_weak=False, need_cleaners=False, need_fin=False, extra=(), extra_modes=()):
     """Random histories over the feature sets / profiles, the directed corpus, Miri, and (thorough) ASan + memcheck."""
     mode = mode or prop
